@@ -230,6 +230,8 @@ parseinit(struct scope *s, struct type *t)
 	p.last = &p.init;
 	if (t->incomplete && t->kind != TYPEARRAY)
 		error(&tok.loc, "initializer specified for incomplete type");
+	if (t->kind == TYPEFUNC || t->kind == TYPEVOID)
+		error(&tok.loc, "initializer specified for a type that is not an object type");
 	if (t->kind == TYPEARRAY && (t->base->size == 0 || t->prop & PROPVM && !t->incomplete && t->size == 0))
 		error(&tok.loc, "initializer specified for variable length array type");
 	for (;;) {
